@@ -2099,6 +2099,69 @@ impl<'a> Gen<'a> {
         }
     }
 
+    /// An *error burst*: a dozen or more failing near-twins in a row on one thread, each of
+    /// whose messages prints an expression list or a type (`take` expected int or range, but
+    /// found {this.x.aa, this.x.rr}). The temporaries rendered for such messages are built and
+    /// dropped call after call at recurring heap addresses; whatever remembers a rendering by
+    /// *where* the thing lived (S76) or by its shape rather than its content answers the next
+    /// twin with the previous one's text. Every call is judged.
+    fn plan_b_error_burst(&self, s: u64) -> Plan {
+        let mut r = Rng::new(mix(s, 0xE44B_0001));
+        let t = r.pick(TABLES).to_string();
+        let shape = r.below(8);
+        let n = r.range(12, 40);
+        let letters = b"abcdefghijklmnopqrstuvwxyz";
+        let mut name = |r: &mut Rng| -> String {
+            let a = letters[r.below(26)] as char;
+            let b = letters[r.below(26)] as char;
+            format!("{a}{b}")
+        };
+        let entry = r.below(4);
+        let mut calls: Vec<Call> = Vec::with_capacity(n);
+        for _ in 0..n {
+            let (a, b, c) = (name(&mut r), name(&mut r), name(&mut r));
+            let src = match shape {
+                0 => format!("from {t} | take {{{a}, {b}}}"),
+                1 => format!("from {t} | filter {{{a}, {b}}}"),
+                2 => format!("from {t} | window rows:{{{a}, {b}}} (derive {c} = 1)"),
+                3 => format!("from {t} | take [{a}, {b}, {c}]"),
+                4 => format!("from {t} | select {{{a}, {b}}} | take {{{a}, {b}, {c}}}"),
+                5 => format!("let v <{{{a} = int, {b} = text}}> = 5\nfrom {t} | select {{v}}"),
+                6 => format!("from {t} | sort {{{a}, -{b}}} | take ({a} | {b} | {c})"),
+                _ => format!("from {t} | derive {c} = case [{a} => 1, {b} => 2] | take {{{c}, {a}}}"),
+            };
+            let op = match entry {
+                0 => Op::Rq { src },
+                1 => Op::Staged { src, opts: Opts::plain("sql.any") },
+                _ => Op::Compile { src, opts: Opts::plain("sql.any") },
+            };
+            calls.push(Call::plain(op));
+        }
+        Plan {
+            stratum: "B".into(),
+            exec_seed: s,
+            shuttle: false,
+            engine: String::new(),
+            hash_base: 0,
+            env_before: None,
+            threads: vec![calls],
+            sched: Sched::default(),
+            log_yield_ppm: 0,
+            sentinel: vec![],
+            keep_log: false,
+            heap_perturb: 0,
+            alloc_yield_mean: 0,
+            clock_step_ns: 0,
+            block_yield_mean: 0,
+            atomic_yield_mean: 0,
+            atomic_hold_mean: 0,
+            atomic_focus: 0,
+            spin_guard: 0,
+            log_level: None,
+            fresh_exec: false,
+        }
+    }
+
     /// A *long* history: hundreds of small, mostly distinct calls in one process (fillers:
     /// executed, not compared), then a few ordinary calls and the sentinel, which are. State
     /// that accumulates slowly - a cache that fills up and starts evicting, an interner, a
@@ -2193,6 +2256,10 @@ impl<'a> Gen<'a> {
         // one execution in forty is a long history (a PRNG stream of its own)
         if Rng::new(mix(s, 0x3a7a)).below(40) == 0 {
             return self.plan_b_marathon(s);
+        }
+        // and one in thirty an error burst (again a stream of its own)
+        if Rng::new(mix(s, 0xE44B)).below(30) == 0 {
+            return self.plan_b_error_burst(s);
         }
         let mut r = Rng::new(s);
         match r.below(20) {
